@@ -64,6 +64,8 @@ def control_instants(ctl, opts):
     if ctl['kind'] == 'time_daily':      # WNTR's SimTimeCondition(repeat=True): every 24 h after the first instant
         return list(range(ctl['at'], dur + 1, DAY))
     first = (ctl['at'] - opts['start_clocktime']) % DAY
+    if ctl['kind'] == 'clock_once':      # TimeOfDayCondition(repeat=False): the first time the clock shows that time
+        return [first] if first <= dur else []
     return list(range(first, dur + 1, DAY))
 
 
